@@ -37,20 +37,23 @@ fn main() {
                     containers::gen_svx(&mut sink, thorough, seed)
                 }
                 "C01" | "C02" | "C03" | "C04" | "C05" | "C06" | "C12" | "C14" => {
-                    if prop == "C06" {
+                    let light = std::env::var("VERIF_LIGHT").map(|v| v == "1").unwrap_or(false);
+                    if prop == "C06" && !light {
                         containers::gen_smx(&mut sink, thorough, seed);
                     }
-                    if prop == "C03" {
+                    if prop == "C03" && !light {
                         dag::gen_dag(&mut sink, thorough);
                     }
-                    if matches!(prop.as_str(), "C01" | "C04" | "C05") {
+                    if matches!(prop.as_str(), "C01" | "C04" | "C05") && !light {
                         scale::gen_scale(&mut sink, thorough);
                     }
                     gen_solver::gen_solver::<pubgrub::Range<u32>>(&mut sink, prop, thorough, seed, debug, n);
                     // the same properties over a custom VersionSet that relies on the trait's provided methods
                     gen_solver::gen_solver::<hset::BitSet8>(&mut sink, prop, thorough, seed ^ 0xb175, debug, n / 6);
                     // and over a 2-element universe, which the versions of one package cover
-                    gen_solver::gen_solver::<hset::BitSet2>(&mut sink, prop, thorough, seed ^ 0xb172, debug, n / 8)
+                    gen_solver::gen_solver::<hset::BitSet2>(&mut sink, prop, thorough, seed ^ 0xb172, debug, n / 8);
+                    // and over a set type whose Display is not injective (result-level oracles and the mirror)
+                    gen_solver::gen_solver::<hset::BlurSet8>(&mut sink, prop, thorough, seed ^ 0xb1a4, debug, n / 8)
                 }
                 "C08" | "C09" => gen_solver::gen_trees(&mut sink, prop, thorough, seed, debug),
                 "C07" => {
